@@ -54,10 +54,11 @@ PROPS['C07'] = {
     'level': 'exploration',
     'budget': {'quick': 75, 'thorough': 1200},
     'parts': [{'sim': 'rph', 'share': 2}, {'sim': 'rph', 'mode': 'sweep', 'share': 1},
-              {'sim': 'transfer', 'share': 2, 'env': {'VERIF_ORACLES': 'C07'}}],
+              {'sim': 'transfer', 'share': 2, 'env': {'VERIF_ORACLES': 'C07'}}, {'sim': 'hs', 'share': 0.8, 'env': {'VERIF_ORACLES': 'C13'}}],
     'rule': 'K:rph: seeded arrival histories (gaps, duplicates, late packets, more gaps than tracked ranges, ECN, forget-below, alarms, drops) against the real received-packet handler '
             'and a set model, plus a bounded sweep of all arrival sequences over small packet-number universes; W:transfer: whole connections under network faults where the wiretap checks '
-            'every ACK frame against the packets actually delivered and the ack-delay bound; non-trivial = a fault/adversarial step fired or more than trivial history; distinct = distinct abstract histories / wire traces',
+            'every ACK frame against the packets actually delivered and the ack-delay bound; W:hs: handshakes with 0-RTT under duplication and replay (a duplicate of a packet of any type is dropped before its frames are handled: nothing is processed twice, no endpoint raises an error over it); '
+            'non-trivial = a fault/adversarial step fired or more than trivial history; distinct = distinct abstract histories / wire traces',
     'real_vs_stub': 'K: real receivedPacketHandler/tracker/history, model peer+clock; W: real endpoints, stub network',
     'assumptions': ['ack timeliness on the wire is only demanded for packets that are a new largest for the receiver (late packets may lie below the duplicate horizon)'],
     'level_text': 'seeded search over arrival histories with a set-based reference model, bounded exhaustive sweep over small universes, and wire-level ACK checks on whole connections under fault schedules',
